@@ -347,6 +347,42 @@ impl<'x> GenComp<'x> {
                     // canon lift of a helper core function with a matching function type
                     let cand: Vec<(u32, u8)> = l.core_funcs.iter().enumerate().filter(|(_, k)| **k < 2).map(|(i, k)| (i as u32, *k)).collect();
                     if cand.is_empty() {
+                        // nothing to lift: a core type section instead (function types, explicit
+                        // recursion groups of 1-3 members incl. struct / array, a module type);
+                        // the shape is a function of the position, not a tape read
+                        let k = (l.types.len() * 5 + l.core_modules.len() * 3 + l.core_funcs.len() + depth) % 5;
+                        let ft = |p: &[we::ValType], r: &[we::ValType]| we::SubType {
+                            is_final: true,
+                            supertype_idx: None,
+                            composite_type: we::CompositeType { inner: we::CompositeInnerType::Func(we::FuncType::new(p.to_vec(), r.to_vec())), shared: false },
+                        };
+                        let st = we::SubType {
+                            is_final: k % 2 == 0,
+                            supertype_idx: None,
+                            composite_type: we::CompositeType {
+                                inner: we::CompositeInnerType::Struct(we::StructType { fields: vec![we::FieldType { element_type: we::StorageType::I8, mutable: true }, we::FieldType { element_type: we::StorageType::Val(we::ValType::I64), mutable: false }].into_boxed_slice() }),
+                                shared: false,
+                            },
+                        };
+                        let mut s = we::CoreTypeSection::new();
+                        match k {
+                            0 => s.ty().core().subtype(&ft(&[we::ValType::I32], &[])),
+                            1 => s.ty().core().rec(vec![ft(&[], &[we::ValType::F64]), ft(&[we::ValType::I32, we::ValType::I64], &[we::ValType::I32])]),
+                            2 => s.ty().core().rec(vec![st.clone()]),
+                            3 => {
+                                s.ty().core().rec(vec![ft(&[], &[]), st.clone(), ft(&[we::ValType::V128], &[])]);
+                                s.ty().core().subtype(&ft(&[], &[we::ValType::I32]));
+                            }
+                            _ => {
+                                let mut mt = we::ModuleType::new();
+                                mt.ty().function([we::ValType::I32], [we::ValType::I32]);
+                                mt.import("env", "f", we::EntityType::Function(0));
+                                mt.export("g", we::EntityType::Function(0));
+                                s.ty().module(&mt);
+                            }
+                        }
+                        c.section(&s);
+                        self.classes.push(["core_type:func", "core_type:rec2", "core_type:rec1_struct", "core_type:rec3_then_func", "core_type:module"][k]);
                         continue;
                     }
                     let (cf, kind) = *t.pick(&cand);
